@@ -8,6 +8,8 @@ TRUST = ("Trusted base: CrossHair 0.0.110's symbolic model of CPython str/int/li
          "per query in the evidence file, nothing is claimed outside them.")
 TECH = "bounded symbolic execution of the real Python functions (CrossHair proxies + z3), path tree exhausted per query; counterexamples replayed natively"
 CLAIMED = {
+    "C18": ("6 C18", "applications.main/process/CutplaceApp.validate with option parsing, CID loader and Reader stubbed: the exit code decided for every list of 0-3 data files with symbolic per-file outcome (accepted / data error / check error at close / unreadable) and CID outcome; every file up to the first unreadable one is judged in order; the --until mapping decided for every integer."),
+    "C19": ("6 C19", "Integer column capacity decided for all lower <= upper (one and two range items, unbounded integers up to the dialect's maximum precision) for the Transact-SQL, DB2 and Oracle dialects through the real IntegerFieldFormat.sql_ansi_type + dialect.sql_type + SqlFactory; NOT NULL / order / quoting decided for all empty-flag combinations of 1-4 fields in four dialects. Keyword sets, decimal digits and text lengths are concrete and checked natively. One genuine defect is a recorded known finding."),
     "C11": ("6 C11", "DataFormat.validate decided on a directly assigned state (item delimiter / quote any single character, all escape, line delimiter and separator settings) for three formats; choice-valued properties decided for every value text (unbounded; case-insensitive ones for ASCII up to 3-5 characters); Header / Sheet for every integer (S-INT); the literal item delimiter for every single character. Spellings of code points, applicability per format, defaults and encodings are checked natively on pools (tokenizer and codecs are C)."),
     "C02": ("6 C02", "Per type, the real constructor and validated()/validated_value() with the C callees stubbed: Integer (cell text unbounded, parsed value unbounded; rule / length-derived / default ranges; fixed-width stripping; plus the real int() on canonical digit texts), Decimal (translation of every cell up to 4-6 characters under all separator conventions, range decided for all k/100), Choice/Constant/Text (every cell, no length bound), DateTime (what reaches strptime incl. the Excel suffix rule, two fields with different layouts in turn), RegEx (ASCII cells up to 3-5 characters vs an independent matcher), Pattern (solver-enumerated over an explicit alphabet). Calendar validity itself is not claimed."),
     "C03": ("6 C03", "AbstractFieldFormat.validated characterised completely for every built-in type (constructed for real; the type's hook replaced by a recorder with a symbolic verdict): reject / empty value without consulting the hook / exactly one hook call with the (blank-stripped) cell, for every Unicode cell up to 3-4 characters, over the grid type x empty flag x 6 length declarations x 3 allowed-character ranges x 4 formats (quick: fixed core + seeded extras; thorough: full grid)."),
